@@ -55,7 +55,9 @@ SPEC = {
         "the gap/silence demands are evaluated on the real float output",
         "min-gap demand for refrac = R*dt is floor(refrac/dt) computed from the doubles; with non-dyadic dt (0.1, 0.3) the quotient of the doubles decides (partial: float)",
         "functional API with frequency*refrac >= 1000 under compensation (documented as nonsensical; unreachable through the modules) carries no demand: only model = code is compared there",
-        "device CPU; tensors of at most a few dozen elements (element-wise code; broadcasting itself is torch's)",
+        "device CPU; sample replay through the Lean driver on tensors of at most a few dozen elements (element-wise code; broadcasting itself is torch's); "
+        "the volume stream (12k..50k elements x 100..400 steps, float32 and float64 inputs) is judged by the closed-form demands only, without a model comparison",
+        "tiny-first-sample probes rank seeds by the first `empty(shape).exponential_()` draw (search over the sampler, not the code); the probed element is the argmin of the exact first row the function draws",
     ],
 }
 DRIVER = "drivers/C19.lean"
@@ -119,6 +121,12 @@ def tdtype(case):
 
 
 def make_inputs(case) -> torch.Tensor:
+    if "volume" in case:
+        # image-like input: exact zeros everywhere except the listed (flat index, intensity) pairs
+        x = torch.zeros(numel(case["shape"]), dtype=tdtype(case))
+        for i, v in case["volume"]["lit"]:
+            x[int(i)] = float(v)
+        return x.reshape(case["shape"])
     return torch.tensor(case["intens"], dtype=tdtype(case)).reshape(case["shape"])
 
 
@@ -669,6 +677,241 @@ def gen_nonrep_gap_case(rng, op, api):
     return case
 
 
+# ---- extreme-sample probes for the interval encoders: "for all generator seeds" includes the seeds whose
+# first exponential sample for some element is tiny (first interval = sample * scale + refrac at its minimum)
+
+_TINY = {}
+
+
+def tiny_sample_seeds(shape, base, count, keep):
+    """Deterministic search over the seeds base .. base+count-1 (sampler only, never the code under test):
+    the `keep` seeds whose first exponential draw of `shape` (float64) contains the smallest samples."""
+    k = (tuple(shape), base, count, keep)
+    if k not in _TINY:
+        res = []
+        for seed in range(base, base + count):
+            g = torch.Generator().manual_seed(seed)
+            s = torch.empty(tuple(shape), dtype=F64).exponential_(1.0, generator=g)
+            res.append((float(s.min()), seed))
+        res.sort()
+        _TINY[k] = res[:keep]
+    return _TINY[k]
+
+
+def gen_tiny_sample_case(rng, op, api, seed, shape, variant):
+    """a small case whose element with the smallest FIRST sample (computed from the exact tensor the function
+    draws: row 0 of `empty(nbins, *shape)` offline, `empty(shape)` online) is silent (variant `silent`: must
+    stay silent however small the sample and however long the window) or at full intensity (variant `lit`:
+    its first interval sits at the refractory minimum)."""
+    steps = rng.choice([40, 100, 200, 400])
+    dt = rng.choice([0.5, 1.0, 2.0])
+    k = rng.choice([None, 1, 2, 3])
+    refrac = None if k is None else k * dt
+    comp = rng.random() < 0.6
+    rms = dt if refrac is None else refrac
+    ok = [f for f in FREQS if (not comp) or f * rms < 1000]
+    case = {"op": op, "api": api, "seed": seed, "steps": steps, "dt": dt, "shape": list(shape),
+            "refrac": refrac, "comp": comp, "freq": rng.choice(ok) if ok else 5.0}
+    g = torch.Generator().manual_seed(seed)
+    if op == "expoff":
+        nbins = int(steps // max(rms / dt, 1))
+        first = torch.empty(nbins, *shape, dtype=F64).exponential_(1.0, generator=g)[0]
+    else:
+        first = torch.empty(tuple(shape), dtype=F64).exponential_(1.0, generator=g)
+    idx = int(first.reshape(-1).argmin())
+    intens = [0.2 + 0.8 * rng.random() for _ in range(numel(shape))]
+    if variant == "silent":
+        for j in range(len(intens)):
+            if j != idx and rng.random() < 0.3:
+                intens[j] = 0.0
+        intens[idx] = 0.0
+    else:
+        intens[idx] = 1.0
+    case["intens"] = intens
+    case["probe"] = f"tiny-first-sample {variant} at element {idx} (sample {float(first.reshape(-1)[idx])!r})"
+    if api == "mod":
+        case["via"] = rng.choice(["ctor", "setters"])
+        order = ["steps", "dt", "frequency", "refrac"]
+        rng.shuffle(order)
+        case["order"] = order
+    return case
+
+
+def tiny_sample_cases(rng, nseeds, per):
+    out = []
+    base = rng.randrange(2 ** 30)
+    for shape in ((3,), (2, 3), (2, 2)):
+        seeds = tiny_sample_seeds(shape, base, nseeds, keep=max(per, 4))
+        for op in ("expoff", "expon"):
+            for api in ("fn", "mod"):
+                for q in range(per):
+                    _, seed = seeds[q % len(seeds)]
+                    out.append(gen_tiny_sample_case(rng, op, api, seed, shape, "silent" if q % 3 != 2 else "lit"))
+    return out
+
+
+# ---- volume stream: mostly-silent, image-like inputs over long windows.  The property's silence clause is a
+# statement about EVERY zero element at EVERY step; a few dozen elements x a few dozen steps sample it thinly, so
+# this stream runs millions of zero-intensity element-steps per case.  Too large for sample replay through the
+# driver: judged against the closed-form demands of the specification (time-first rows == steps, bool, silent at
+# rate 0, inter-spike distance >= floor(refrac/dt), reproducible from the same generator state).
+
+VOLUMES = [((32, 32, 32), 150), ((16, 1, 28, 28), 400), ((64, 28, 28), 100), ((4, 3, 32, 32), 400), ((8, 64, 64), 150)]
+
+
+def gen_volume_case(rng, op, api):
+    shape, steps = rng.choice(VOLUMES)
+    dt = rng.choice([0.5, 1.0, 2.0])
+    case = {"op": op, "api": api, "seed": rng.randrange(2 ** 31), "steps": steps, "dt": dt,
+            "dtype": rng.choice(["f64", "f32"])}
+    if op in ("expoff", "expon"):
+        k = rng.choice([None, 1, 2, 3])
+        refrac = None if k is None else k * dt
+        comp = rng.random() < 0.6
+        rms = dt if refrac is None else refrac
+        ok = [f for f in FREQS if (not comp) or f * rms < 1000]
+        case.update({"refrac": refrac, "comp": comp, "freq": rng.choice(ok) if ok else 5.0})
+    else:
+        case["freq"] = rng.choice(FREQS + [1500.0])
+    if op == "berninh":
+        # time-varying rates: the leading dimension IS time
+        n = numel(shape)
+        shape = (steps, max(n // 4, 1))
+    n = numel(shape)
+    lit = {}
+    for _ in range(rng.choice([8, 24, 64])):
+        lit[rng.randrange(n)] = rng.choice([1.0, 1.0, rng.random(), 0.5])
+    case["shape"] = list(shape)
+    case["volume"] = {"lit": sorted([i, v] for i, v in lit.items())}
+    if api == "mod":
+        case["via"] = rng.choice(["ctor", "setters"])
+        order = ["steps", "dt", "frequency", "refrac"]
+        rng.shuffle(order)
+        case["order"] = order
+    return case
+
+
+def volume_observe(case):
+    """runs the real code once on a volume case and evaluates the demands; returns (problems, out) where
+    problems is a list of (sub-key, description)."""
+    op = case["op"]
+    steps, dt, refrac, comp = effective_cfg(case)
+    x = make_inputs(case)
+    shape = tuple(x.shape)
+    exp_shape = ((steps,) + shape) if op != "berninh" else shape
+    g = torch.Generator().manual_seed(case["seed"])
+    st0 = g.get_state()
+    probs = []
+    try:
+        out = call_real(case, g)
+    except Exception as e:
+        return [("raises", f"raised {type(e).__name__} ({str(e)[:100]}) where a spike train of {steps} steps is required")], None
+    if isinstance(out, list):
+        ok = len(out) == steps and all(isinstance(s, torch.Tensor) and s.dtype == torch.bool and tuple(s.shape) == shape for s in out)
+        if not ok:
+            return [("shape", f"online iteration yielded {len(out)} slices; exactly {steps} boolean slices of shape {shape} are required")], None
+        out = torch.stack(out)
+    if not isinstance(out, torch.Tensor) or out.dtype != torch.bool:
+        probs.append(("dtype", f"output dtype {getattr(out, 'dtype', type(out))} is not bool"))
+        return probs, None
+    if tuple(out.shape) != exp_shape:
+        probs.append(("shape", f"output shape {tuple(out.shape)} != time-first {exp_shape}"))
+        return probs, out
+    # silence at zero intensity (rate = frequency * intensity == 0 exactly where the intensity is 0)
+    zero = (x == 0)
+    if op == "berninh":
+        bad = (out & zero).nonzero()
+        nzero_cells = int(zero.sum())
+        if bad.numel() > 0:
+            ex_ = [tuple(int(v) for v in b) for b in bad[:5].tolist()]
+            probs.append(("silent", f"{bad.shape[0]} spikes were emitted in cells whose rate is 0 ({nzero_cells} such cells); first at (step, element...) {ex_}"))
+    else:
+        flat = out.reshape(steps, -1)
+        zf = zero.reshape(-1)
+        bad = (flat & zf.unsqueeze(0)).nonzero()
+        if bad.numel() > 0:
+            ex_ = [(int(t), int(i)) for t, i in bad[:5].tolist()]
+            probs.append(("silent", f"{bad.shape[0]} spikes were emitted by elements of intensity exactly 0 ({int(zf.sum())} silent elements over {steps} steps of {dt} ms); "
+                          f"first (step, flat element) {ex_}"))
+        # refractory gap on the lit elements
+        if op in ("expoff", "expon"):
+            g_req = int((dt if refrac is None else refrac) // dt)
+            for i, _v in case["volume"]["lit"]:
+                ts = spike_times(flat[:, int(i)].tolist())
+                close = [(a, b) for a, b in zip(ts, ts[1:]) if b - a < g_req]
+                if close:
+                    probs.append(("gap", f"element {i} fired at steps {close[0][0]} and {close[0][1]}: distance {close[0][1] - close[0][0]} < required {g_req} (refrac/dt)"))
+                    break
+    # reproducibility from the same generator state
+    try:
+        gr = torch.Generator()
+        gr.set_state(st0)
+        again = call_real(case, gr)
+        if isinstance(again, list):
+            again = torch.stack(again)
+        if not torch.equal(again, out):
+            probs.append(("repro", "a second run from the same generator state gave a different spike train"))
+    except Exception as e:
+        probs.append(("repro", f"a second run from the same generator state raised {type(e).__name__}"))
+    return probs, out
+
+
+def volume_shrink(case, sub, budget=10):
+    """smaller volume (leading dimension / steps halved) that still shows the same kind of problem"""
+    cur = case
+    for _ in range(budget):
+        cands = []
+        shape = list(cur["shape"])
+        lead = 1 if cur["op"] == "berninh" else 0
+        if shape[lead] > 1:
+            sh = list(shape)
+            sh[lead] = shape[lead] // 2
+            ratio_n = numel(sh)
+            if cur["op"] == "berninh":
+                # element index = t * width + j : keep the cells whose column survives
+                w_old, w_new = shape[1], sh[1]
+                lit = [[(i // w_old) * w_new + (i % w_old), v] for i, v in cur["volume"]["lit"] if (i % w_old) < w_new]
+            else:
+                lit = [[i, v] for i, v in cur["volume"]["lit"] if i < ratio_n]
+            cands.append({**cur, "shape": sh, "volume": {"lit": lit}})
+        if cur["steps"] > 8:
+            st = cur["steps"] // 2
+            c2 = {**cur, "steps": st}
+            if cur["op"] == "berninh":
+                w = shape[1]
+                c2["shape"] = [st, w]
+                c2["volume"] = {"lit": [[i, v] for i, v in cur["volume"]["lit"] if i < st * w]}
+            cands.append(c2)
+        nxt = None
+        for c in cands:
+            probs, _ = volume_observe(c)
+            if any(p[0] == sub for p in probs):
+                nxt = c
+                break
+        if nxt is None:
+            break
+        cur = nxt
+    return cur
+
+
+def volume_findings(case, shrink=True):
+    probs, out = volume_observe(case)
+    fs = []
+    for sub, what in probs[:2]:
+        c = volume_shrink(case, sub) if shrink and sub in ("silent", "gap") else case
+        if c is not case:
+            p2, _ = volume_observe(c)
+            what = next((w for s_, w in p2 if s_ == sub), what)
+        steps, dt, refrac, comp = effective_cfg(c)
+        desc = (f"{c['op']} ({c['api']}{':' + c.get('via', '') if c['api'] == 'mod' else ''}) generator seed={c['seed']}, input {c.get('dtype', 'f64')} zeros of shape {c['shape']} "
+                f"with {len(c['volume']['lit'])} lit elements, steps={steps}, dt={dt}, frequency={c['freq']}"
+                + (f", refrac={refrac}, compensate={comp}" if c['op'] in ('expoff', 'expon') else "") + f": {what}")
+        fs.append(Finding(kind="spec", key=f"C19:spec:{c['op']}:{sub}", what=desc,
+                          case={"case": c, "expected": "closed-form demands of the specification: time-first bool train of `steps` rows, no spike where the rate is 0, "
+                                "inter-spike distance >= floor(refrac/dt), reproducible from the same generator state", "observed": what}))
+    return fs, out
+
+
 # ---- attempts to reach an incompatible configuration through the modules (must be rejected)
 
 def incompatible_attempts(rng, count):
@@ -949,7 +1192,32 @@ def explore(ctx) -> Exploration:
                                    case={"positions": dict(find_positions())}))
     nominal = [gen_nonrep_gap_case(rng, op, api) for op in ("expoff", "expon") for api in ("fn", "mod") for _ in range(per // 4)]
     cases += nominal
+    # extreme-sample probes: seeds (found by a search over the sampler alone) whose first exponential sample is tiny,
+    # landing on a silent element / on a full-intensity element, over long windows
+    tiny = tiny_sample_cases(rng, 20000 if not thorough else 100000, 4 if not thorough else 8)
+    cases += tiny
     obs = run_encoder_cases(ctx, cases, ex)
+
+    # volume stream: millions of zero-intensity element-steps per case (mostly black image batches, long windows)
+    vols = []
+    for op in OPS:
+        for api in ("fn", "mod"):
+            if op == "berninh" and api == "mod":
+                continue
+            k = (4 if op in ("expoff", "expon") else 1) * (1 if not thorough else 2)
+            vols += [gen_volume_case(rng, op, api) for _ in range(k)]
+    vol_element_steps = 0
+    for c in vols:
+        ex.evaluations += 1
+        ex.count("volume_stream", f"{c['op']}:{c['api']}:{c['dtype']}")
+        n_ = numel(c["shape"]) * (1 if c["op"] == "berninh" else c["steps"])
+        vol_element_steps += n_ - len(c["volume"]["lit"]) * (1 if c["op"] == "berninh" else c["steps"])
+        already = {f.key for f in ex.findings}
+        fs, out = volume_findings(c, shrink=True)
+        if out is not None and bool(out.any()):
+            ex.nontriv(("volume", c["op"], c["api"], c["seed"], c["steps"], c["dt"], c.get("refrac"), c.get("comp"), c["freq"], tuple(c["shape"]), c["dtype"]))
+        ex.findings += [f for f in fs if f.key not in already]
+    ex.extra["volume_zero_element_steps"] = vol_element_steps
 
     # modules must reject frequency * refrac >= 1000 under compensation on every path
     attempts = incompatible_attempts(rng, 60 if not thorough else 1000)
@@ -980,10 +1248,14 @@ def explore(ctx) -> Exploration:
                "(rows == steps time-first, bool, silent at rate 0, inter-spike distance >= floor(refrac/dt) also via inferno.isi, reproducible from the same state) on the real output; "
                "non-trivial = the real train contains at least one spike; plus attempts to reach an incompatible configuration through constructor and each setter (must raise ValueError), "
                "and constructor/setter sequences (exhaustive constructor grid, every single setter from four base states, random sequences) compared with the configuration machine after every call")
+    ex.rule += ("; tiny-first-sample probes (seeds ranked by the smallest first exponential sample, found by searching the sampler only; that element is silent or at full intensity; "
+                "windows of 40..400 steps); volume stream (all seven functions, functional and module API, float32/float64 inputs: image-like tensors of 12k..50k elements, all exact zeros "
+                "except 8..64 lit elements, 100..400 steps: judged by the closed-form demands - shape, bool, silence at zero, refractory distance, reproducibility)")
     ex.samples = [obs[0]["line"][:300], obs[nb]["line"][:300] if len(obs) > nb else "", ecases[-1]]
     ex.extra["streams"] = {"boundary": nb, "random_valid": len(cases) - nb - len(nonrep) - len(excluded), "non_representable": len(nonrep),
                            "excluded_region": len(excluded), "bernoulli_float32": len(f32), "bernoulli_strictness_probes": len(probes),
-                           "non_representable_nominal_gap": len(nominal), "incompatible_attempts": len(attempts), "config_sequences": len(ecases)}
+                           "non_representable_nominal_gap": len(nominal), "tiny_first_sample_probes": len(tiny), "volume": len(vols),
+                           "incompatible_attempts": len(attempts), "config_sequences": len(ecases)}
     ex.extra["observation"] = ("poisson_interval (offline) always fires every non-silent element at the last step (clamp_max(steps) into steps+2 rows, "
                                "then res[1:-1]); modelled faithfully, proved as poisson_last_step_fires; not a clause of C19")
     return ex
@@ -1004,6 +1276,15 @@ def replay(ctx, data) -> int:
         r = try_incompatible(fi["attempt"])
         print("attempt", fi["attempt"], "->", "rejected (ValueError)" if r is None else r)
         return 1 if r is not None else 0
+    if "case" in fi and "volume" in fi["case"]:
+        case = fi["case"]
+        probs, out = volume_observe(case)
+        print("case:", case)
+        print("real:", "no output" if out is None else f"{int(out.sum())} spikes in a train of shape {tuple(out.shape)}")
+        for sub, what in probs:
+            print("FINDING spec", f"C19:spec:{case['op']}:{sub}", what)
+        print("DISAGREEMENT" if probs else "agrees")
+        return 1 if probs else 0
     if "case" in fi:
         case = {k: v for k, v in fi["case"].items() if k != "line"}
         o = replay_and_run(case)
